@@ -288,6 +288,26 @@ def h_eq_meta(kind, which, m):
     b = a.copy(**kw)
     m.require(f'a differing {which} entry makes regions unequal', Not(a == b))
     m.require(f'a differing {which} entry makes regions unequal (symmetric)', Not(b == a))
+    # every way in which two vocabularies-conforming dicts can differ: a missing key, an extra key whose value is None / '' / 0 /
+    # an empty list (values that a lookup with a default cannot tell from absence), a None value against a real one, list order
+    base = dict(getattr(a, which))
+    if which == 'meta':
+        variants = [{**base, 'comment': None}, {**base, 'comment': ''}, {**base, 'name': None}, {k: v for k, v in base.items() if k != 'tag'},
+                    {**base, 'label': None}, {**base, 'tag': None}, {**base, 'tag': []}, {**base, 'tag': ['t1', 't0']}, {**base, 'tag': ['t0', 't1']},
+                    {**base, 'include': None}, {**base, 'include': False}, {}]
+    else:
+        variants = [{**base, 'default_style': None}, {**base, 'linewidth': None}, {**base, 'linewidth': 0}, {**base, 'dashes': []},
+                    {**base, 'color': None}, {**base, 'color': ''}, {**base, 'fontsize': None}, {}]
+    for i, var in enumerate(variants):
+        if var == base:
+            continue
+        c = a.copy(**{which: dict(var)})
+        d = a.copy(**{which: dict(var)})
+        m.require(f'{which} variant #{i} ({sorted(set(var) ^ set(base)) or "changed value"}) makes the regions unequal', Not(a == c))
+        m.require(f'{which} variant #{i} makes the regions unequal (symmetric)', Not(c == a))
+        m.require(f'two regions with the same {which} variant #{i} are equal', c == d)
+    same = a.copy(**{which: dict(base)})
+    m.require(f'a copy given an equal {which} dict is equal', And(a == same, same == a))
 
 
 def h_eq_units(kind, m):
